@@ -191,25 +191,23 @@ def addDone (s : State) (f : FId) (cb : Cb) : State :=
 that is not an `Exception`, or the `InvalidStateError` of a done target, escapes from the callback -/
 def captureSetExc (s : State) (src : Src) (target : FId) (e : Exc) : State :=
   if e.isException then
-    let (s1, ok) := setOutcome s target (.exc e)
-    if ok then s1 else s1.logErr src .invalidState
+    if (setOutcome s target (.exc e)).2 then (setOutcome s target (.exc e)).1
+    else (setOutcome s target (.exc e)).1.logErr src .invalidState
   else
     s.logErr src e
 
 /-- `target.set_result(v)` inside `with capture_exceptions(target)` -/
 def captureSetResult (s : State) (src : Src) (target : FId) (v : Val) : State :=
-  let (s1, ok) := setOutcome s target (.result v)
-  if ok then s1 else captureSetExc s1 src target .invalidState
+  if (setOutcome s target (.result v)).2 then (setOutcome s target (.result v)).1
+  else captureSetExc (setOutcome s target (.result v)).1 src target .invalidState
 
 /-- `plum_to_kiwi_future(p)` -/
 def plumToKiwi (s : State) (p : FId) : State × FId :=
-  let (s1, k) := alloc s .kiwi
-  (addDone s1 p (.mirror k), k)
+  (addDone (alloc s .kiwi).1 p (.mirror (alloc s .kiwi).2), (alloc s .kiwi).2)
 
 /-- `unwrap_kiwi_future(f)` -/
 def unwrapKiwi (s : State) (f : FId) : State × FId :=
-  let (s1, u) := alloc s .kiwi
-  (addDone s1 f (.unwrap u), u)
+  (addDone (alloc s .kiwi).1 f (.unwrap (alloc s .kiwi).2), (alloc s .kiwi).2)
 
 /-- closure `unwrap(fut)` of `unwrap_kiwi_future` -/
 def invokeUnwrap (s : State) (src : Src) (u f : FId) : State :=
@@ -230,8 +228,7 @@ def invokeMirror (s : State) (src : Src) (k f : FId) : State :=
   | .exc e => captureSetExc s src k e
   | .result (.ref g) =>
       if (s.heap g).kind = .aio then                  -- isinstance(result, futures.Future): convert it too
-        let (s1, k') := plumToKiwi s g
-        captureSetResult s1 src k (.ref k')
+        captureSetResult (plumToKiwi s g).1 src k (.ref (plumToKiwi s g).2)
       else captureSetResult s src k (.ref g)
   | .result v => captureSetResult s src k v
 
@@ -274,14 +271,14 @@ def runCoro (h : FId → Cell) : Coro → CoroRes
 /-- what escapes from `run_task` / `run_callback` when `set_exception` on the returned future fails too -/
 def taskSetExc (s : State) (t : TId) (target : FId) (e : Exc) : State :=
   if e.isException then
-    let (s1, ok) := setOutcome s target (.exc e)
-    s1.setTask t (.finished (if ok then none else some .invalidState))
+    (setOutcome s target (.exc e)).1.setTask t
+      (.finished (if (setOutcome s target (.exc e)).2 then none else some .invalidState))
   else
     s.setTask t (.finished (some e))
 
 def taskSetResult (s : State) (t : TId) (target : FId) (v : Val) : State :=
-  let (s1, ok) := setOutcome s target (.result v)
-  if ok then s1.setTask t (.finished none) else taskSetExc s1 t target .invalidState
+  if (setOutcome s target (.result v)).2 then (setOutcome s target (.result v)).1.setTask t (.finished none)
+  else taskSetExc (setOutcome s target (.result v)).1 t target .invalidState
 
 /-- `run_task` of `create_task` (resumed or started) with the user coroutine at `c` -/
 def advanceCoro (s : State) (t : TId) (fut : FId) (c : Coro) : State :=
@@ -351,20 +348,17 @@ def drain (fuel : Nat) : Nat → State → State
 
 /-- `create_task(coro)`: `asyncio.run_coroutine_threadsafe(run_task(), loop)` -/
 def createTask (s : State) (c : Coro) : State × FId :=
-  let (s1, fut) := alloc s .aio
-  let t := s1.ntasks
-  ({ (s1.setTask t (.coro fut c)) with ntasks := t + 1, ready := s1.ready ++ [.start t] }, fut)
+  ({ ((alloc s .aio).1.setTask s.ntasks (.coro (alloc s .aio).2 c)) with
+      ntasks := s.ntasks + 1, ready := s.ready ++ [.start s.ntasks] }, (alloc s .aio).2)
 
 /-- `Process._schedule_rpc(callback)` -/
 def scheduleRpc (s : State) (c : Call) : State × FId :=
-  let (s1, kf) := alloc s .kiwi
-  let t := s1.ntasks
-  ({ (s1.setTask t (.rpcCall kf c)) with ntasks := t + 1, ready := s1.ready ++ [.start t] }, kf)
+  ({ ((alloc s .kiwi).1.setTask s.ntasks (.rpcCall (alloc s .kiwi).2 c)) with
+      ntasks := s.ntasks + 1, ready := s.ready ++ [.start s.ntasks] }, (alloc s .kiwi).2)
 
 /-- `CancellableAction(action)` -/
 def newAction (s : State) (fn : Call) : State × FId :=
-  let (s1, a) := alloc s .aio
-  (s1.setAct a (some { fn := some fn }), a)
+  ((alloc s .aio).1.setAct (alloc s .aio).2 (some { fn := some fn }), (alloc s .aio).2)
 
 /-- `CancellableAction.run()`; the second component is what `run` raises to its caller -/
 def runAction (s : State) (a : FId) : State × Option Exc :=
